@@ -9,3 +9,4 @@ INVARIANT Invariants
 PROPERTY PerPeer
 VIEW View
 CHECK_DEADLOCK FALSE
+PROPERTY RefinesInflightProof
